@@ -16,12 +16,12 @@ def run(ctx):
     g = ctx.tlc("MC_Iface", "Gen_Iface.cfg", workers=1, timeout=1500, constants={"MaxOps": 3 if q else 4},
                 tag="all histories to depth %d" % (3 if q else 4))
     behs = ctx.behaviours(g)
-    gh = ctx.tlc("MC_Iface", "Gen_Iface.cfg", workers=1, timeout=1500, constants={"MaxOps": 5 if q else 6, "Ops": "<- HeldOps", "V": '{"i1"}', "M": "<- M1h", "Kinds": '{"stub"}', "Args": "{7}"},
-                 tag="all histories with kept handles to depth %d (one variable, two of its methods)" % (5 if q else 6))
+    gh = ctx.tlc("MC_Iface", "Gen_Iface.cfg", workers=1, timeout=1500, constants={"MaxOps": 5, "Ops": "<- HeldOps", "V": '{"i1"}', "M": "<- M1h", "Kinds": '{"stub"}' if q else '{"stub", "apply"}', "Args": "{7}"},
+                 tag="all histories with kept handles to depth 5 (one variable, two of its methods)")
     behs += ctx.behaviours(gh)
     # kept handles re-used after Reset, then the builder dropped and collections: the re-activated context must keep the
     # new replacement alive (one method, histories that contain Reset, Drop and GC and end in a call)
-    gk = ctx.tlc("MC_Iface", "Gen_Iface.cfg", workers=1, timeout=1500, constants={"MaxOps": 6 if q else 7, "Ops": "<- HeldGcOps", "V": '{"i1"}', "M": "<- M1a", "Kinds": '{"apply", "stub"}', "Args": "{7}"},
+    gk = ctx.tlc("MC_Iface", "Gen_Iface.cfg", workers=1, timeout=1500, constants={"MaxOps": 6, "Ops": "<- HeldGcOps", "V": '{"i1"}', "M": "<- M1a", "Kinds": '{"apply", "stub"}', "Args": "{7}"},
                  tag="kept handles x Reset x Drop x GC, one method")
     kb = [b for b in ctx.behaviours(gk) if b[-1]["op"] == "Call" and {"Reset", "Drop", "GC"} <= {s["op"] for s in b} and any(s.get("via") in ("heldI", "heldM") for s in b)]
     ctx.note("kept handle / Reset / Drop / GC histories: %d" % len(kb))
